@@ -138,5 +138,200 @@ __CPROVER_ensures((R_O_DELIVERED && g_k < C1->btrace_len) ==> BT(C1)[g_k] == g_b
 #endif
 ;
 #endif
+
+/* ===================================================================== */
+/* Context operations.  The context under contract is `arg`; it is the socket's
+ * own context (-DREP_C1M=1) or a separately allocated one (-DREP_C1M=0). */
+#define SOCK ((rep0_sock *) g_sock)
+#define CTX ((rep0_ctx *) arg)
+#if REP_C1M == 1
+#define REP_CTX_PRE (__CPROVER_is_fresh(g_sock, sizeof(struct rep0_sock)) && PTR_IS(arg, (void *) &SOCK->ctx) && PTR_IS(CTX->sock, SOCK))
+#define IS_MASTER 1
+#else
+#define REP_CTX_PRE (__CPROVER_is_fresh(g_sock, sizeof(struct rep0_sock)) && __CPROVER_is_fresh(arg, sizeof(struct rep0_ctx)) && PTR_IS(CTX->sock, SOCK))
+#define IS_MASTER 0
+#endif
+#define SM (aio->a_msg)
+#define SPIPE ((rep0_pipe *) g_rr.idm_val)
+
+/* ---- rep0_ctx_send (C04): the reply goes only to the pipe, and with the backtrace, of the request this
+ * context received last; the captured state is consumed, so a second send fails with NNG_ESTATE ----
+ * -DREP_SQ=n: number of OTHER contexts already queued on the target pipe (0 or 1). */
+#define S_FIN1 (g_fin_calls == OLD(g_fin_calls) + 1 && g_fin_last == aio)
+#define S_NOSEND (g_pipe_send_calls == OLD(g_pipe_send_calls))
+#define S_OLDLEN OLD(CTX->btrace_len)
+#define S_REJECT (OLD(CTX->saio) != NULL)
+#define S_ESTATE (!S_REJECT && S_OLDLEN == 0)
+/* -DREP_HAS=0: no pipe is registered under the captured pipe id (requester gone); =1: there is one */
+#if REP_HAS == 0
+#define S_GONE (!S_REJECT && S_OLDLEN > 0)
+#else
+#define S_NOW (!S_REJECT && S_OLDLEN > 0 && !OLD(SPIPE->busy))
+#define S_WAIT (!S_REJECT && S_OLDLEN > 0 && OLD(SPIPE->busy))
+#endif
+static void rep0_ctx_send(void *arg, nni_aio *aio)
+__CPROVER_requires(REP_CTX_PRE && VP_NO_LOCK_HELD)
+__CPROVER_requires(__CPROVER_is_fresh(aio, sizeof(nni_aio)) && MSG_PRE(SM) && SM->m_refcnt.v == 1)
+__CPROVER_requires(CH_GHOST_PRE(&SM->m_body))
+/* state invariant of the context: the backtrace fits the header; queued on a pipe iff a send is pending */
+__CPROVER_requires(CTX->btrace_len <= MSG_HDRCAP)
+__CPROVER_requires(CTX->saio == NULL ? NODE_IDLE(&CTX->sqnode) : (CTX->sqnode.ln_next != NULL && CTX->sqnode.ln_prev != NULL))
+/* ghost equations: g_hb = captured backtrace byte g_hk; the tracked key of the pipe map is the captured pipe id */
+__CPROVER_requires((g_hk < CTX->btrace_len) ==> g_hb == BT(CTX)[g_hk])
+__CPROVER_requires(g_idm_addr == &SOCK->pipes && g_idm_key == (uint64_t) CTX->pipe_id)
+#if REP_HAS == 0
+__CPROVER_requires(!g_rr.idm_has)
+#else
+__CPROVER_requires(g_rr.idm_has && __CPROVER_is_fresh(g_rr.idm_val, sizeof(struct rep0_pipe)) &&
+#if REP_SQ == 0
+    LIST_EMPTY_PRE(&SPIPE->sendq, OFF_SQ)
+#else
+    __CPROVER_is_fresh(g_c2, sizeof(struct rep0_ctx)) && LIST_ONE_PRE(&SPIPE->sendq, OFF_SQ, &C2->sqnode)
+#endif
+    )
+#endif
+__CPROVER_requires(g_pollr_addr == &SOCK->readable && g_pollw_addr == &SOCK->writable)
+__CPROVER_assigns(aio->a_msg, aio->a_result, aio->a_count, CTX->btrace_len, CTX->pipe_id, CTX->saio, CTX->spipe, CTX->sqnode, VP_PROTO_GHOST_LIST, VP_RR_GHOST_LIST, VP_SYNC_GHOSTS, g_free_calls)
+__CPROVER_assigns(*SM)
+#if REP_HAS == 1
+__CPROVER_assigns(SPIPE->busy, SPIPE->aio_send.a_msg, SPIPE->sendq.ll_head)
+#if REP_SQ == 1
+__CPROVER_assigns(C2->sqnode)
+#endif
+#endif
+__CPROVER_frees(SM, SM->m_body.ch_buf)
+__CPROVER_ensures(VP_NO_LOCK_HELD)
+/* out-of-order use: a reply of this context is still queued => rejected with NNG_ESTATE, nothing consumed, nothing sent */
+__CPROVER_ensures(S_REJECT ==> (S_FIN1 && g_fin_last_rv == NNG_ESTATE && aio->a_msg == OLD(SM) && !__CPROVER_was_freed(OLD(SM)) && S_NOSEND && g_start_calls == OLD(g_start_calls)
+    && CTX->saio == OLD(CTX->saio) && CTX->btrace_len == S_OLDLEN && CTX->pipe_id == OLD(CTX->pipe_id)))
+/* otherwise the captured request is consumed whatever happens: the next send without a receive is refused */
+__CPROVER_ensures(!S_REJECT ==> (CTX->btrace_len == 0 && CTX->pipe_id == 0))
+#if REP_C1M == 1
+__CPROVER_ensures(!S_REJECT ==> !g_pollw)
+#endif
+/* send before receive: NNG_ESTATE, the message stays with the caller, nothing is sent */
+__CPROVER_ensures(S_ESTATE ==> (S_FIN1 && g_fin_last_rv == NNG_ESTATE && aio->a_msg == OLD(SM) && !__CPROVER_was_freed(OLD(SM)) && S_NOSEND && g_start_calls == OLD(g_start_calls)))
+#if REP_HAS == 0
+/* the requester's pipe is gone: discarded, reported as sent */
+__CPROVER_ensures(S_GONE ==> (S_FIN1 && g_fin_last_rv == 0 && g_fin_last_count == OLD(SM->m_body.ch_len) && aio->a_msg == NULL && __CPROVER_was_freed(OLD(SM)) && S_NOSEND && g_start_calls == OLD(g_start_calls)))
+#else
+/* pipe idle: sent now, to exactly the pipe registered under the captured pipe id, header = exactly the captured backtrace, body unchanged */
+__CPROVER_ensures(S_NOW ==> (g_pipe_send_calls == OLD(g_pipe_send_calls) + 1 && g_pipe_send_pipe == SPIPE->pipe && g_pipe_send_aio == &SPIPE->aio_send && g_pipe_send_msg == OLD(SM) && SPIPE->busy
+    && !__CPROVER_was_freed(OLD(SM)) && OLD(SM)->m_header_len == S_OLDLEN && OLD(SM)->m_body.ch_len == OLD(SM->m_body.ch_len)
+    && S_FIN1 && g_fin_last_rv == 0 && g_fin_last_count == OLD(SM->m_body.ch_len) && aio->a_msg == NULL && g_start_calls == OLD(g_start_calls) && CTX->saio == NULL))
+__CPROVER_ensures((S_NOW && g_hk < S_OLDLEN) ==> HDR(OLD(SM))[g_hk] == g_hb)
+__CPROVER_ensures((S_NOW && g_k < OLD(SM->m_body.ch_len)) ==> OLD(SM)->m_body.ch_ptr[g_k] == g_b)
+/* pipe busy: waits behind the replies already queued on that pipe (or is refused by the aio layer: nothing queued);
+ * the message stays attached with the backtrace as header */
+__CPROVER_ensures(S_WAIT ==> (S_NOSEND && g_fin_calls == OLD(g_fin_calls) && g_start_calls == OLD(g_start_calls) + 1 && g_start_last == aio && aio->a_msg == OLD(SM) && !__CPROVER_was_freed(OLD(SM))
+    && OLD(SM)->m_header_len == S_OLDLEN))
+__CPROVER_ensures((S_WAIT && g_hk < S_OLDLEN) ==> HDR(OLD(SM))[g_hk] == g_hb)
+__CPROVER_ensures((S_WAIT && g_aio_start_ok) ==> (CTX->saio == aio && CTX->spipe == SPIPE &&
+#if REP_SQ == 0
+    LIST_IS_ONE(&SPIPE->sendq, &CTX->sqnode)
+#else
+    LIST_IS_TWO(&SPIPE->sendq, &C2->sqnode, &CTX->sqnode)
+#endif
+    ))
+__CPROVER_ensures((S_WAIT && !g_aio_start_ok) ==> (CTX->saio == NULL && NODE_IDLE(&CTX->sqnode) &&
+#if REP_SQ == 0
+    LIST_IS_EMPTY(&SPIPE->sendq)
+#else
+    LIST_IS_ONE(&SPIPE->sendq, &C2->sqnode)
+#endif
+    ))
+#endif
+;
+
+/* ---- rep0_ctx_recv (C04): captures the backtrace and the origin pipe of the request it delivers;
+ * a second concurrent receive is refused with NNG_ESTATE ----
+ * -DREP_RP=0: no pipe holds a request (-DREP_RQ=0: nobody waits, 1: another context waits, 2: THIS context already waits)
+ * -DREP_RP=1|2: that many pipes hold a request (then, by the state invariant of rep.c, nobody waits) */
+#define RCV_P1M (P1->aio_recv.a_msg)
+#if REP_RP == 0
+#if REP_RQ == 0
+#define RCV_LISTS (CTX->raio == NULL && NODE_IDLE(&CTX->rqnode) && LIST_EMPTY_PRE(&SOCK->recvq, OFF_RQ) && LIST_EMPTY_PRE(&SOCK->recvpipes, OFF_RP))
+#elif REP_RQ == 1
+#define RCV_LISTS (CTX->raio == NULL && NODE_IDLE(&CTX->rqnode) && __CPROVER_is_fresh(g_c2, sizeof(struct rep0_ctx)) && LIST_ONE_PRE(&SOCK->recvq, OFF_RQ, &C2->rqnode) && LIST_EMPTY_PRE(&SOCK->recvpipes, OFF_RP))
+#else
+#define RCV_LISTS (__CPROVER_is_fresh(CTX->raio, sizeof(nni_aio)) && LIST_ONE_PRE(&SOCK->recvq, OFF_RQ, &CTX->rqnode) && LIST_EMPTY_PRE(&SOCK->recvpipes, OFF_RP))
+#endif
+static void rep0_ctx_recv(void *arg, nni_aio *aio)
+__CPROVER_requires(REP_CTX_PRE && VP_NO_LOCK_HELD)
+__CPROVER_requires(__CPROVER_is_fresh(aio, sizeof(nni_aio)))
+__CPROVER_requires(RCV_LISTS)
+__CPROVER_requires(g_pollr_addr == &SOCK->readable && g_pollw_addr == &SOCK->writable)
+__CPROVER_assigns(CTX->raio, CTX->rqnode, SOCK->recvq.ll_head, VP_PROTO_GHOST_LIST, VP_SYNC_GHOSTS)
+#if REP_RQ == 1
+__CPROVER_assigns(C2->rqnode)
+#endif
+__CPROVER_ensures(VP_NO_LOCK_HELD)
+/* nothing to deliver: the operation must wait, so the aio layer is consulted exactly once (C15) */
+__CPROVER_ensures(g_start_calls == OLD(g_start_calls) + 1 && g_start_last == aio && g_pipe_recv_calls == OLD(g_pipe_recv_calls))
+/* the captured reply state is not touched by a receive that delivers nothing */
+__CPROVER_ensures(CTX->btrace_len == OLD(CTX->btrace_len) && CTX->pipe_id == OLD(CTX->pipe_id))
+#if REP_RQ == 2
+/* second concurrent receive: NNG_ESTATE; the first one is not disturbed */
+__CPROVER_ensures(g_aio_start_ok ==> (g_fin_calls == OLD(g_fin_calls) + 1 && g_fin_last == aio && g_fin_last_rv == NNG_ESTATE))
+__CPROVER_ensures(!g_aio_start_ok ==> g_fin_calls == OLD(g_fin_calls))
+__CPROVER_ensures(CTX->raio == OLD(CTX->raio) && LIST_IS_ONE(&SOCK->recvq, &CTX->rqnode))
+#else
+__CPROVER_ensures(g_fin_calls == OLD(g_fin_calls))
+__CPROVER_ensures(g_aio_start_ok ==> (CTX->raio == aio &&
+#if REP_RQ == 0
+    LIST_IS_ONE(&SOCK->recvq, &CTX->rqnode)
+#else
+    LIST_IS_TWO(&SOCK->recvq, &C2->rqnode, &CTX->rqnode)
+#endif
+    ))
+__CPROVER_ensures(!g_aio_start_ok ==> (CTX->raio == NULL && NODE_IDLE(&CTX->rqnode) &&
+#if REP_RQ == 0
+    LIST_IS_EMPTY(&SOCK->recvq)
+#else
+    LIST_IS_ONE(&SOCK->recvq, &C2->rqnode)
+#endif
+    ))
+#endif
+;
+#else /* REP_RP >= 1 */
+#if REP_RP == 1
+#define RCV_PIPES (__CPROVER_is_fresh(g_p1, sizeof(struct rep0_pipe)) && LIST_ONE_PRE(&SOCK->recvpipes, OFF_RP, &P1->rnode))
+#else
+#define RCV_PIPES (__CPROVER_is_fresh(g_p1, sizeof(struct rep0_pipe)) && __CPROVER_is_fresh(g_p2, sizeof(struct rep0_pipe)) && LIST_TWO_PRE(&SOCK->recvpipes, OFF_RP, &P1->rnode, &((rep0_pipe *) g_p2)->rnode))
+#endif
+static void rep0_ctx_recv(void *arg, nni_aio *aio)
+__CPROVER_requires(REP_CTX_PRE && VP_NO_LOCK_HELD)
+__CPROVER_requires(__CPROVER_is_fresh(aio, sizeof(nni_aio)))
+__CPROVER_requires(CTX->raio == NULL && NODE_IDLE(&CTX->rqnode) && LIST_EMPTY_PRE(&SOCK->recvq, OFF_RQ))
+__CPROVER_requires(RCV_PIPES)
+/* the first pipe holds an accepted request: header = backtrace (at most 64 bytes), see rep0_pipe_recv_cb */
+__CPROVER_requires(MSG_PRE(RCV_P1M) && RCV_P1M->m_refcnt.v == 1 && CH_GHOST_PRE(&RCV_P1M->m_body) && HDR_GHOST_PRE(RCV_P1M))
+__CPROVER_requires(g_pollr_addr == &SOCK->readable && g_pollw_addr == &SOCK->writable)
+__CPROVER_assigns(aio->a_msg, CTX->btrace_len, CTX->btrace, CTX->pipe_id, SOCK->recvpipes.ll_head, P1->rnode, P1->aio_recv.a_msg, RCV_P1M->m_header_len, VP_PROTO_GHOST_LIST, VP_SYNC_GHOSTS)
+#if REP_RP == 2
+__CPROVER_assigns(((rep0_pipe *) g_p2)->rnode)
+#endif
+__CPROVER_ensures(VP_NO_LOCK_HELD)
+/* can proceed: completed in the call with the request of the FIRST holding pipe; the aio layer is not consulted (C15) */
+__CPROVER_ensures(g_start_calls == OLD(g_start_calls) && g_fin_calls == OLD(g_fin_calls) + 1 && g_fin_last == aio && g_fin_last_rv == 0 && g_fin_last_msg == OLD(RCV_P1M) && aio->a_msg == OLD(RCV_P1M)
+    && g_fin_last_count == OLD(RCV_P1M->m_body.ch_len) && CTX->raio == NULL)
+/* the context captures exactly the backtrace of THAT request and the id of the pipe it came from */
+__CPROVER_ensures(CTX->btrace_len == OLD(RCV_P1M->m_header_len) && CTX->pipe_id == g_pipe_id)
+__CPROVER_ensures((g_hk < OLD(RCV_P1M->m_header_len)) ==> BT(CTX)[g_hk] == g_hb)
+/* the application gets the body unchanged and no header */
+__CPROVER_ensures(aio->a_msg->m_header_len == 0 && aio->a_msg->m_body.ch_len == OLD(RCV_P1M->m_body.ch_len))
+__CPROVER_ensures((g_k < OLD(RCV_P1M->m_body.ch_len)) ==> aio->a_msg->m_body.ch_ptr[g_k] == g_b)
+/* that pipe is armed for its next request and leaves the holding list; readable iff another pipe still holds one */
+__CPROVER_ensures(P1->aio_recv.a_msg == NULL && g_pipe_recv_calls == OLD(g_pipe_recv_calls) + 1 && g_pipe_recv_pipe == P1->pipe && g_pipe_recv_aio == &P1->aio_recv && NODE_IDLE(&P1->rnode))
+#if REP_RP == 1
+__CPROVER_ensures(LIST_IS_EMPTY(&SOCK->recvpipes) && !g_pollr)
+#else
+__CPROVER_ensures(LIST_IS_ONE(&SOCK->recvpipes, &((rep0_pipe *) g_p2)->rnode) && g_pollr == OLD(g_pollr))
+#endif
+#if REP_C1M == 1
+__CPROVER_ensures(!P1->busy ==> g_pollw)
+#endif
+;
+#endif
 /* clang-format on */
 #endif
